@@ -292,7 +292,7 @@ class PathRun:
                     ngoal, insts = self.skolem_instances(goal, flat)
                     insts = [c for c in insts if not has_quantifier(c)]
                     insts += self.ctor_facts(qf + insts + [ngoal])
-                    qf_ms = int(os.environ.get('PYVC_QF_MS', min(3000, max(1000, self.d.budget.timeout_ms // 4))))
+                    qf_ms = int(os.environ.get('PYVC_QF_MS', max(3000, self.d.budget.timeout_ms // 2)))
                     r0 = None
                     s0 = self._solver(qf_ms)
                     s0.add(*qf)
@@ -347,6 +347,7 @@ class PathRun:
                 if verdict == 'failed':
                     ob.smt = s.to_smt2()
             ob.path = self.path_id()
+            ob.part = part
             self.d.ob_cache[key] = ob
             self.d.obligations.append(ob)
         if self.d.ob_cache[key].verdict != 'failed' and assume:
@@ -425,9 +426,7 @@ class PathRun:
                         cats.append(e)
                     for ch in e.children():
                         concats(ch, memo)
-            memo = set()
-            for e in [ngoal] + [h for h in (hyps if hyps is not None else self.pc) if not has_quantifier(h)]:
-                concats(e, memo)
+            concats(ngoal, set())
             for cat in cats:
                 pre = z3.IntVal(0)
                 for part in cat.children()[:-1]:
@@ -459,27 +458,37 @@ class PathRun:
                     for b in sks:
                         insts.append(z3.substitute_vars(h.body(), a, b))
         if valq:
-            keys, kseen = [], set()
+            gcache2 = gcache
 
-            def dict_keys(e, memo):
-                if e.get_id() in memo or z3.is_quantifier(e):
-                    return
-                memo.add(e.get_id())
-                if z3.is_app(e):
-                    if e.decl().kind() == z3.Z3_OP_SELECT and e.arg(1).sort() == Val:
-                        # keys looked up in comprehension dicts / sets, and objects whose attributes are read (frame facts
-                        # `every earlier object keeps its attributes` are quantified over objects)
-                        k = e.arg(1)
-                        if k.get_id() not in kseen and _is_ground_term(k, gcache) and len(keys) < 10:
-                            kseen.add(k.get_id())
-                            keys.append(k)
-                    for ch in e.children():
-                        dict_keys(ch, memo)
-            memo = set()
-            for e in [ngoal] + insts:
-                dict_keys(e, memo)
+            def keys_of(formulas, want_dict):
+                keys, kseen, memo = [], set(), set()
+
+                def walk(e):
+                    if e.get_id() in memo or z3.is_quantifier(e):
+                        return
+                    memo.add(e.get_id())
+                    if z3.is_app(e):
+                        if e.decl().kind() == z3.Z3_OP_SELECT and e.arg(1).sort() == Val:
+                            arr = e.arg(0)
+                            is_dict = z3.is_app(arr) and arr.decl().name().startswith(('DICT_', 'SETOF'))
+                            k = e.arg(1)
+                            if is_dict == want_dict and k.get_id() not in kseen and _is_ground_term(k, gcache2) and len(keys) < 6:
+                                kseen.add(k.get_id())
+                                keys.append(k)
+                        for ch in e.children():
+                            walk(ch)
+                for f in formulas:
+                    walk(f)
+                return keys
+            # witness axioms of comprehension dicts / sets: at the keys looked up in the goal and in the instances so far;
+            # frame facts `every earlier object keeps its attributes` (quantified over objects): at the objects the goal reads
+            dict_keys = keys_of([ngoal] + insts, True)
+            obj_keys = keys_of([ngoal], False)
             for h in valq:
-                for k in keys:
+                syms = set()
+                _symbols(h, set(), syms)
+                is_dict_axiom = any(n.startswith(('DICT_', 'SETOF')) for n in syms)
+                for k in (dict_keys if is_dict_axiom else obj_keys):
                     insts.append(z3.substitute_vars(h.body(), k))
         return ngoal, insts
 
